@@ -841,8 +841,8 @@ func runC05(o Opts) {
 			selfSrc = append(selfSrc, r)
 		}
 	}
-	n := map[string]int{"quick": 60, "thorough": 3000}[o.Tier]
-	nt := map[string]int{"quick": 6, "thorough": 40}[o.Tier]
+	n := map[string]int{"quick": 150, "thorough": 3000}[o.Tier]
+	nt := map[string]int{"quick": 10, "thorough": 40}[o.Tier]
 	if o.N > 0 {
 		n = o.N
 	}
